@@ -554,6 +554,66 @@ def party_indices(facts, rep):
 OUTPUT_3OF3 = ("MultiplyMPC", "DotMPC", "MatmulMPC", "GemmMPC", "MixedMultiplyMPC")
 
 
+# protocols parameterised by role fields of self: the typing is run once per assignment of distinct parties to the roles
+# (the helper is "the third party").  inputs: ordinal of g.input -> roles that hold it; output: roles that must know it.
+# Source: the comment block above `struct ObliviousTransfer` ("Input values known to the sender", "Selection bit known to the
+# receiver and helper", "PRF key known to the sender and helper", "OT returns i_b to a receiver party")
+ROLE_PROTOCOLS = {
+    "<mpc::utils::ObliviousTransfer as custom_ops::CustomOperationBody>::instantiate": {
+        "roles": ("sender_id", "receiver_id"),
+        "inputs": {0: "S", 1: "S", 2: "RH", 3: "SH"},
+        "output": "R",
+    },
+}
+
+
+def role_protocols(facts, rep):
+    from ..knowledge import Knowledge
+    judged = 0
+    for name, spec in sorted(ROLE_PROTOCOLS.items()):
+        b = facts.body(name)
+        if not rep.anchor("C02.W", name, b):
+            continue
+        verdicts = {}      # key -> [(assignment, ok, detail)]
+        for s_ in range(3):
+            for r_ in range(3):
+                if s_ == r_:
+                    continue
+                h_ = 3 - s_ - r_
+                who = {"S": s_, "R": r_, "H": h_}
+                env = {spec["roles"][0]: s_, spec["roles"][1]: r_}
+                holders = {k: frozenset(who[c] for c in v) for k, v in spec["inputs"].items()}
+                kn = Knowledge(facts, b, env=env, input_holders=holders)
+                for k, (nb, (snd, rcv)) in enumerate(sorted(kn.sends.items())):
+                    src = kn.node_args(b.term(nb))
+                    if snd is None or not src:
+                        continue
+                    K, exact = kn.of_operand(src[0], (nb, None))
+                    if exact:
+                        verdicts.setdefault(("sender#%d" % k, nb), []).append(((s_, r_), snd in K, "Send(%s,%s) payload known to %s" % (snd, rcv, sorted(K))))
+                for bb, t in b.calls():
+                    cn = callee_name(t) or ""
+                    if b.is_cleanup(bb) or cn not in ("graphs::Node::set_as_output", "graphs::Graph::set_output_node"):
+                        continue
+                    a = t["args"][0 if cn.endswith("set_as_output") else 1]
+                    K, exact = kn.of_operand(a, (bb, None))
+                    if exact:
+                        need = {who[c] for c in spec["output"]}
+                        verdicts.setdefault(("output", bb), []).append(((s_, r_), need <= set(K), "output known to %s, needed by %s" % (sorted(K), sorted(need))))
+        short = name.split(" as ")[0].split("::")[-1]
+        for (key, bb), vs in sorted(verdicts.items()):
+            if len(vs) != 6:
+                continue        # not exact under every role assignment: not judged
+            judged += 1
+            bad = [v for v in vs if not v[1]]
+            rep.ob("C02.W", "%s|roles|%s" % (short, key), not bad,
+                   "for all 6 assignments of (sender, receiver) the party named in the protocol can compute the value (%s)" % vs[0][2]
+                   if not bad else
+                   "for (sender, receiver) = %s: %s - the party that has to compute this value does not hold its ingredients"
+                   % (bad[0][0], bad[0][2]), b.loc(bb))
+    return judged
+
+
 def knowledge_typing(facts, rep):
     from ..knowledge import Knowledge
     rep.rule("C02.W", "ownership typing where literal indices make it decidable: (K, exact) = parties certain to be able to compute "
@@ -631,6 +691,7 @@ def knowledge_typing(facts, rep):
                        "Send(%s,%s) inside the closure: the sender can compute the payload (known to %s)" % (s_, r_, sorted(K)) if s_ in K else
                        "Send(%s,%s) inside the closure: party %s sends a value that only parties %s can compute" % (s_, r_, s_, sorted(K)),
                        cb.loc(nb))
+    judged += role_protocols(facts, rep)
     rep.analysed["knowledge_typed_judgements"] = judged
     rep.floor("C02.W", "exact ownership judgements", judged, 2)
 
